@@ -745,6 +745,9 @@ def path_conditions(ix, node, upto=None):
         elif c.get("k") == "binary" and c["op"] == "||" and not pol:
             add(c["l"], False)
             add(c["r"], False)
+        elif c.get("k") == "binary" and c["op"] == "!=":
+            # canonical form: `a != b` holding is `a == b` not holding
+            out.append((dict(c, op="=="), not pol))
         else:
             out.append((c, pol))
     child = node
